@@ -51,6 +51,9 @@ def correspondence(ctx):
     vlib.differential(ctx, "rpq-differential", "TestVerifRPQ", "rpq",
                       {"VERIF_N": ctx.scale(150, 3000), "VERIF_OPS": 120,
                        "VERIF_CORPUS": os.path.join(vlib.VERIF, "corpus/rpq.ops")})
+    # props/C01Ack.v is about Sender.v (sack_step, t3_step, send_new): its step-commuting records are part of this check
+    vlib.differential(ctx, "sender-step-commuting", "TestVerifSimSender", "sender",
+                      {"VERIF_N": ctx.scale(40, 1500), "VERIF_EVENTS": 250}, timeout=3000)
     vlib.differential(ctx, "streamw-differential", "TestVerifStreamW", "streamw", {"VERIF_N": ctx.scale(200, 4000)})
     vlib.differential(ctx, "pq-differential", "TestVerifPQ", "pq", {"VERIF_N": ctx.scale(150, 3000)})
     vlib.monitor(ctx, "ordered-span-on-implementation", "TestVerifE2ESpan", {},
